@@ -83,19 +83,71 @@ class ExprMixin:
     def ex_JoinedStr(self, node, frame):
         amb = False
         parts = []
+        const = True
         for v in node.values:
             if isinstance(v, ast.FormattedValue):
                 x = self.eval(v.value, frame)
                 amb = amb or (isinstance(x, Opaque) and x.ambient)
+                plain = v.format_spec is None and v.conversion == -1
                 if isinstance(x, StrV) and x.s is not None:
                     parts.append(x.s)
+                    const = const and plain
                 elif isinstance(x, Num) and x.r.as_int() is not None:
                     parts.append(str(x.r.as_int()))
+                    const = const and plain and self._int_typed(v.value, x)
                 else:
                     parts.append("{%s}" % (x.desc if isinstance(x, Opaque) else key_str(val_key(x))))
+                    const = False
             elif isinstance(v, ast.Constant):
                 parts.append(str(v.value))
+        if const:
+            return StrV("".join(parts))   # every piece is a known constant: the string itself
         return Opaque("f'" + "".join(parts) + "'", ambient=amb)
+
+    def _int_typed(self, node, x):
+        """The formatted number prints as an int (not '1.0'): built from int literals with + - * only."""
+        for n in ast.walk(node):
+            if isinstance(n, ast.Constant) and not (isinstance(n.value, int) and not isinstance(n.value, bool)):
+                return False
+            if isinstance(n, ast.BinOp) and not isinstance(n.op, (ast.Add, ast.Sub, ast.Mult)):
+                return False
+            if isinstance(n, (ast.Call, ast.Attribute, ast.Subscript)):
+                return False
+            if isinstance(n, ast.Name) and not self._int_loop_variable(n.id, node):
+                return False
+        return True
+
+    def _int_loop_variable(self, name, at):
+        """`name` is only ever bound as the target of a loop over int literals / range() in the function that contains `at`."""
+        root = None
+        for f in self.repo.all_functions():
+            if f.node.lineno <= at.lineno <= (f.node.end_lineno or f.node.lineno) and any(x is at for x in ast.walk(f.node)):
+                root = f.node
+                break
+        if root is None:
+            return False
+        ok = False
+        for n in ast.walk(root):
+            tgt = it = None
+            if isinstance(n, (ast.For, ast.comprehension)):
+                tgt, it = n.target, n.iter
+            elif isinstance(n, (ast.Assign, ast.AugAssign, ast.AnnAssign, ast.NamedExpr)):
+                ts = n.targets if isinstance(n, ast.Assign) else [n.target]
+                if any(isinstance(x, ast.Name) and x.id == name and isinstance(x.ctx, ast.Store) for t in ts for x in ast.walk(t)):
+                    return False
+                continue
+            else:
+                continue
+            if isinstance(tgt, ast.Name) and tgt.id == name:
+                lit = isinstance(it, (ast.Tuple, ast.List)) and it.elts and all(
+                    isinstance(e, ast.Constant) and isinstance(e.value, int) and not isinstance(e.value, bool) for e in it.elts)
+                rng = isinstance(it, ast.Call) and isinstance(it.func, ast.Name) and it.func.id == "range"
+                if not (lit or rng):
+                    return False
+                ok = True
+            elif any(isinstance(x, ast.Name) and x.id == name for x in ast.walk(tgt)):
+                return False
+        return ok
 
     def ex_Tuple(self, node, frame):
         return TupV([self.eval(e, frame) for e in node.elts])
@@ -109,11 +161,40 @@ class ExprMixin:
     def ex_Dict(self, node, frame):
         items = {}
         for k, v in zip(node.keys, node.values):
+            if k is None:
+                # {**other, ...}
+                dv = self.force(self.eval(v, frame), frame, node)
+                if not isinstance(dv, DictV):
+                    raise Unmodelled("dict unpacking of a non-literal mapping at %s" % frame.loc(node))
+                items.update(dv.items)
+                continue
             kv = self.eval(k, frame)
-            if not (isinstance(kv, StrV) and kv.s is not None):
+            key = self.const_key(kv, frame, node, fork=False)
+            if key is None:
                 raise Unmodelled("dict key is not a constant string at %s" % frame.loc(node))
-            items[kv.s] = self.eval(v, frame)
+            items[key] = self.eval(v, frame)
         return DictV(items)
+
+    def const_key(self, v, frame, node, fork=True):
+        """Canonical key of a constant dictionary key: the string itself for strings, a tagged text for numbers, booleans, None and
+        tuples of those. A boolean that is still open is decided (the lookup forks) when fork is set."""
+        v = self.resolve_maybe(v)
+        if isinstance(v, StrV):
+            if v.s is not None:
+                return v.s
+            c = self.concretize_str(v, frame, node) if fork else None
+            return c.s if c is not None and c.s is not None else None
+        if isinstance(v, BoolV):
+            b = v.b if v.b is not None else (self.truth(v, frame, node) if fork else None)
+            return None if b is None else "\x00%s" % bool(b)
+        if v is NONE or isinstance(v, NoneV):
+            return "\x00None"
+        if isinstance(v, Num) and v.r.is_const():
+            return "\x00%s" % v.r.const_value()
+        if isinstance(v, TupV):
+            parts = [self.const_key(x, frame, node, fork) for x in v.items]
+            return None if any(p is None for p in parts) else "\x00(" + ",".join(parts) + ")"
+        return None
 
     def ex_DictComp(self, node, frame):
         if len(node.generators) != 1 or node.generators[0].is_async:
@@ -147,7 +228,9 @@ class ExprMixin:
         return v
 
     def ex_Lambda(self, node, frame):
-        return FuncV("lambda", node=node, frame=frame)
+        fv = FuncV("lambda", node=node, frame=frame)
+        fv.defaults = [self.eval(d, frame) for d in node.args.defaults]   # default values are evaluated when the function is created
+        return fv
 
     def ex_Starred(self, node, frame):
         raise Unmodelled("starred expression at %s" % frame.loc(node))
@@ -367,10 +450,10 @@ class ExprMixin:
             c = ("is", key_str(val_key(l)), key_str(val_key(r)))
             return BoolV(None, c if isinstance(op, ast.Is) else ("not", c))
         if isinstance(op, (ast.In, ast.NotIn)):
-            if isinstance(r, DictV) and isinstance(l, StrV):
-                k = l if l.s is not None else self.concretize_str(l, frame, node)
-                if k is not None and k.s is not None:
-                    res = k.s in r.items
+            if isinstance(r, DictV):
+                key = self.const_key(l, frame, node)
+                if key is not None:
+                    res = key in r.items
                     return BoolV(res if isinstance(op, ast.In) else not res)
             if isinstance(l, StrV) and isinstance(r, (TupV, ListV)):
                 cands = self.as_items(r, frame, node) if not (isinstance(r, ListV) and r.kind != "lit") else None
@@ -622,6 +705,11 @@ class ExprMixin:
                 c = ("in", idx.path, tuple(sorted(base.items)))
                 self.ctx.event("dict-unknown-key", (idx.path, tuple(sorted(base.items))), frame.loc(node))
                 raise Unmodelled("dict lookup with unknown key %s at %s" % (idx.path, frame.loc(node)))
+            key = self.const_key(idx, frame, node)
+            if key is not None:
+                if key in base.items:
+                    return base.items[key]
+                raise RaiseSignal("KeyError", key, node, frame)
             raise Unmodelled("dict subscript at %s" % frame.loc(node))
         if isinstance(base, Opaque):
             return Opaque("%s[%s]" % (base.desc, key_str(val_key(idx))), ambient=base.ambient)
@@ -789,18 +877,32 @@ class ExprMixin:
 
     def comprehension(self, node, frame):
         if len(node.generators) != 1:
+            # [(a, b) for a in xs for b in ys] is itertools.product(xs, ys) when ys does not depend on a
+            gens = node.generators
+            tn = [g.target.id for g in gens if isinstance(g.target, ast.Name)]
+            elt = getattr(node, "elt", None)
+            plain = len(tn) == len(gens) and not any(g.ifs or g.is_async for g in gens) and isinstance(elt, ast.Tuple) \
+                and [e.id for e in elt.elts if isinstance(e, ast.Name)] == tn and len(elt.elts) == len(tn) \
+                and not any(isinstance(x, ast.Name) and x.id in tn for g in gens for x in ast.walk(g.iter))
+            if plain:
+                return self.call_ext("itertools.product", None, [self.eval(g.iter, frame) for g in gens], {}, frame, node)
             raise Unmodelled("nested comprehension at %s" % frame.loc(node))
         g = node.generators[0]
         it = self.eval(g.iter, frame)
         it = self.force(it, frame, node)
-        items = self.as_items(it, frame, node) if not isinstance(it, ObjV) else None
+        items = self.as_items(it, frame, node) if not (isinstance(it, ObjV) and not getattr(it.cls, "is_namedtuple", False)) else None
         if items is not None and not g.ifs:
             out = []
+            # ONE scope for all iterations, as in Python: a closure created in the element expression sees the variable's LAST binding
+            f2 = Frame(frame.func, frame.module, {}, frame.cls, parent=frame)
             for x in items:
-                f2 = Frame(frame.func, frame.module, {}, frame.cls, parent=frame)
                 self.assign(g.target, x, f2)
                 out.append(self.eval(node.elt, f2))
             return ListV("lit", items=out)
+        tnames = {n.id for n in ast.walk(g.target) if isinstance(n, ast.Name)}
+        for lam in (n for n in ast.walk(node.elt) if isinstance(n, ast.Lambda)):
+            if tnames & {n.id for n in ast.walk(lam.body) if isinstance(n, ast.Name)}:
+                raise Unmodelled("closure over the variable of a comprehension of unknown length at %s" % frame.loc(node))
         lo, hi, idx, elem = self.iter_family(it, frame, node)
         try:
             f2 = Frame(frame.func, frame.module, {}, frame.cls, parent=frame)
@@ -926,7 +1028,7 @@ def negate_cond(c):
 
 BUILTINS = {"sum", "len", "range", "max", "min", "abs", "int", "float", "round", "list", "tuple", "str", "set",
             "filter", "getattr", "type", "isinstance", "print", "open", "hash", "zip", "enumerate", "sorted",
-            "map", "bool", "dict", "any", "all", "hasattr", "repr", "iter", "next", "pow"}
+            "map", "bool", "dict", "any", "all", "hasattr", "repr", "iter", "next", "pow", "reversed", "divmod", "frozenset"}
 
 def ext_const(dotted):
     if dotted in ("numpy.inf", "math.inf"):
